@@ -6,5 +6,5 @@ CONSTANTS
     ExtParams <- MCExtParams
     Scenarios <- MCScenarios
     Tier = "quick"
-INVARIANTS TypeOK WellFormedOrSilent OfferedReflectsCreds OnlySelectedOffered SplitAtFirstColon DestFaithful ProceedsOnlyOnSuccess FailureMapping SegIndependent EmitBehaviour
+INVARIANTS TypeOK WellFormedOrSilent OfferedReflectsCreds OnlySelectedOffered SplitAtFirstColon DestFaithful ProceedsOnlyOnSuccess FailureMapping TunnelIsDestination SegIndependent EmitBehaviour
 CHECK_DEADLOCK FALSE
